@@ -29,6 +29,7 @@ func runC08(c *eng.Ctx) {
 	c.Rule("R08.1", "K1")
 	ruleKeylessMessagesAreNotTracked(c)
 	ruleKeyScanCoversEverySegment(c)
+	ruleNegativeSettingsTakeTheDefault(c)
 	p := c.P
 	// ---- R08.1 retention predicate
 	c.Rule("R08.1", "K1")
